@@ -128,7 +128,7 @@ func baseChecks(run *vlab.Run, res *CaseResult, desc interface{}, wantExit0 bool
 	}
 	if res.TimedOut {
 		if res.Parked {
-			run.Violation("no-exit", "sx did not exit: no CPU time and no frame during the last second (parked)", map[string]interface{}{"case": desc, "goroutines": tailStr(res.Dump, 6000)})
+			run.Violation("no-exit", "sx did not exit: no CPU time and no frame during the last second (parked)", map[string]interface{}{"case": desc, "goroutines": tailStr(res.Dump, 60000)})
 		} else {
 			run.Inconclusive(fmt.Sprintf("watchdog fired while sx was still making progress: %v", desc))
 		}
